@@ -5,7 +5,7 @@ CONSTANTS
   K1s = {2, 3}
   Counts = {0, 1, 2, 5}
   NClasses = 3
-  Shifts <- ShiftsMC
+  Shifts <- ShiftsAll
 INVARIANT Additive
 INVARIANT Proportional
 INVARIANT OrderIndependent
